@@ -14,7 +14,7 @@ CHECKS = {
          "chrono date arithmetic is modelled (trusted base); the per-day computation is a recording stub; spans and k bounded as stated."),
  "C11": ("M+K", TECH_M + "; plus " + TECH_K + " (relational bit-precise harnesses)", "z3 decides, per path of the symbolically executed MIR of hour_to_time/round_secs (4 modes x 7 keys, real hour in [-50,75] h, offsets in [-1500,1500] min, plus the exact whole-second grid), that the clock time is the mode's fixed function of the truncated unrounded second with carries through hour and midnight, moves by < 60 s, never fails from_hms_opt, that to_prayer_time copies the extreme flag and that every branch of get_imsaak ends in the Fajr-keyed conversion; Kani decides bit-precisely, for every f64 hour of a slice, that the rounded result is the mode's function of the unrounded one (quick 4 harnesses, thorough 64).",
          "exact-real semantics outside 1 microsecond guard bands (+ exact grid) for engine M; engine K harnesses use offset 0; one recorded known finding (f64 sliver where the minute carries twice)."),
- "C03": ("M", TECH_M, "z3/nlsat decides on every path of get_fajr_isha (|lat| <= 60, |dec| <= 23.7, independent angles in [9,21]) the depression-angle identity on the sine scale (0.03 deg), the side of Dhuhr, the 12 h bound, monotonicity of Fajr/Isha in the angle, get_imsaak's parameter branches, and the frame clause of the default policy (an unflagged Fajr/Isha is the conventional one).",
+ "C03": ("M", TECH_M, "(plus hour_to_time mode None for Fajr/Isha/Imsaak, hours -50..75: the reported unrounded clock time is the kernel's hour) z3/nlsat decides on every path of get_fajr_isha (|lat| <= 60, |dec| <= 23.7, independent angles in [9,21]) the depression-angle identity on the sine scale (0.03 deg), the side of Dhuhr, the 12 h bound, monotonicity of Fajr/Isha in the angle, get_imsaak's parameter branches, and the frame clause of the default policy (an unflagged Fajr/Isha is the conventional one).",
          "libm as uninterpreted functions constrained by instantiated theorems; exact-real f64; ephemeris accuracy and the 0.5 deg instantaneous-altitude clause outside the claim."),
  "C04": ("M", TECH_M, "z3/nlsat decides on every path of get_asr (both schools, |lat| <= 60 incl. lat = dec) the shadow-length rule on the sine scale (0.03 deg), Asr after Dhuhr, Hanafi later than Shafi and Asr before the sunset hour angle.",
          "libm as uninterpreted functions + instantiated theorems; Asr vs the iterated Maghrib correction is outside."),
